@@ -70,6 +70,7 @@ type c15Case struct {
 	Cond      string      `json:"conditional"` // "", inm_match, inm_nomatch, ims_match, ims_nomatch, range_first, range_suffix, range_multi, if_range
 	State     string      `json:"key_state"`   // cold | hit | hfp
 	Loc       string      `json:"location"`
+	UpStatus  int         `json:"upstream_status,omitempty"` // pass-through methods: what the upstream answers
 }
 
 func c15ETag(uri string) string {
@@ -132,6 +133,12 @@ func c15Gen(rnd *rand.Rand, i int, locs []c15Loc) (c15Case, c15Loc) {
 	c.Method = []string{"GET", "GET", "GET", "GET", "HEAD", "POST", "PUT", "DELETE", "PATCH"}[rnd.Intn(9)]
 	if c.Method == "POST" || c.Method == "PUT" || c.Method == "PATCH" {
 		c.BodyLen = []int{0, 1, 100, 5000, 1 << 20}[rnd.Intn(5)]
+	}
+	if c.Method == "GET" && rnd.Intn(5) == 0 {
+		c.BodyLen = 100 // a GET may carry a body; it is the client's request like any other part of it
+	}
+	if c.Method != "GET" && c.Method != "HEAD" {
+		c.UpStatus = []int{200, 200, 201, 404, 500, 503}[rnd.Intn(6)]
 	}
 	c.Header = [][2]string{{"X-Custom", "one"}, {"X-Custom", "two"}, {"Authorization", "Bearer tok" + fmt.Sprint(i)}, {"Cookie", "a=1; b=2"}}
 	if rnd.Intn(2) == 0 {
@@ -290,7 +297,7 @@ func sortedValues(v url.Values) []string {
 }
 
 func c15(r *hx.Run) {
-	r.Rule = "generated cases on nine locations (one reaching the origin over h2c, no change, the two documented rewrite forms, a literal swap, a two-rule rewrite chain, added request+response headers, added query parameters, upstream Accept-Encoding override): methods GET/HEAD/POST/PUT/DELETE/PATCH, bodies 0..1 MiB, multi-valued/lower-case/credential headers, queries with repeated keys, escapes and value-less parameters, escaped paths; conditional (matching/non-matching ETag and Last-Modified) and Range (first bytes, suffix, multi, If-Range) headers on cold, hit and hit-for-pass keys against an origin built on http.ServeContent; client A's request is followed by a plain client B. Compared: what the origin logged vs the reference transformation, the client's response vs origin response + configured headers, B never receives 304/206/partial. Non-trivial/distinct = (location, method, conditional kind, key state, cacheable)."
+	r.Rule = "generated cases on nine locations (one reaching the origin over h2c, no change, the two documented rewrite forms, a literal swap, a two-rule rewrite chain, added request+response headers, added query parameters, upstream Accept-Encoding override): methods GET/HEAD/POST/PUT/DELETE/PATCH, bodies 0..1 MiB (also on GET), upstream statuses 200/201/404/500/503 on the pass-through methods, multi-valued/lower-case/credential headers, queries with repeated keys, escapes and value-less parameters, escaped paths; conditional (matching/non-matching ETag and Last-Modified) and Range (first bytes, suffix, multi, If-Range) headers on cold, hit and hit-for-pass keys against an origin built on http.ServeContent; client A's request is followed by a plain client B. Compared: what the origin logged vs the reference transformation, the client's response vs origin response + configured headers, B never receives 304/206/partial. Non-trivial/distinct = (location, method, conditional kind, key state, cacheable)."
 	r.Assume = []string{"malformed queries, If-Match/412, X-Forwarded-For, User-Agent and the upstream Accept-Encoding when the client sent none (Go's transport adds gzip itself) are not judged", "conditional headers on a cold uncacheable fetch are not judged (pike cannot know cacheability beforehand)", "304 for a conditional HEAD is not demanded (the fresh middleware skips body-less responses; 200 is a correct answer)"}
 	rnd := rand.New(rand.NewSource(r.Seed))
 	locs := c15Locations()
@@ -338,7 +345,7 @@ func c15(r *hx.Run) {
 		}
 		h := [][2]string{{"Cache-Control", cc}, {"Content-Type", "text/plain"}, {"X-Origin-Multi", "o1"}, {"X-Origin-Multi", "o2"}, {"X-Resp-Multi", "origin"}}
 		if f.Method != "GET" && f.Method != "HEAD" {
-			return &hx.Reply{Status: 200, Header: h, Body: []byte("ack " + f.Method)}
+			return &hx.Reply{Status: c.UpStatus, Header: h, Body: []byte("ack " + f.Method)}
 		}
 		return &hx.Reply{ServeContent: true, ETag: c15ETag(c.URI), ModTime: c15ModTime, Header: h, Body: c15Body(c.URI)}
 	})
@@ -426,7 +433,7 @@ func c15(r *hx.Run) {
 		match := c.Cond == "inm_match" || c.Cond == "ims_match" || c.Cond == "both_match"
 		switch {
 		case c.Method != "GET" && c.Method != "HEAD":
-			if resA.Status != 200 || string(resA.Decoded) != "ack "+c.Method {
+			if resA.Status != c.UpStatus || string(resA.Decoded) != "ack "+c.Method {
 				r.Violate("response_changed", nil, "pass-through response altered", resA.Brief(), cs)
 				continue
 			}
@@ -456,7 +463,10 @@ func c15(r *hx.Run) {
 			}
 		}
 		// response headers = origin's + configured
-		if resA.Status == 200 || resA.Status == 206 {
+		if resA.Status == 200 || resA.Status == 206 || (c.Method != "GET" && c.Method != "HEAD") {
+			if resA.Status >= 400 {
+				r.Add("upstream_error_statuses_passed_through", 1)
+			}
 			wantMulti := []string{"o1", "o2"}
 			if fmt.Sprint(resA.Header["X-Origin-Multi"]) != fmt.Sprint(wantMulti) {
 				r.Violate("response_header_changed", nil, fmt.Sprintf("X-Origin-Multi %v", resA.Header["X-Origin-Multi"]), resA.Brief(), cs)
